@@ -1,6 +1,7 @@
 // C19 implementation driver: zix_file_lock / zix_file_unlock from /repo/src/posix/filesystem_posix.c
 //
-// Linked with -Wl,--wrap=flock.
+// Linked with -Wl,--wrap=flock and --wrap of calls a lock wrapper has no business making (fcntl, fflush, fsync,
+// fdatasync, ftruncate, write, close, fclose, lockf): made inside zix_file_lock/unlock they count as unexpected.
 //   F <L|U> <B|T> <rc> <errno> <m>  scripted: flock is replaced, (fd, flags) recorded, result injected; the FILE is
 //                                  opened with mode m (r, R = r+, w, a, A = a+); any fcntl call is recorded too
 //   P <kinds> <sched>              lock-step run: one worker per handle, two characters each: p = forked process /
@@ -8,7 +9,9 @@
 //                                  the lock file itself and is driven over pipes so that the interleaving is exactly
 //                                  the given one.  sched tokens <i><c>:
 //                                    t/b lock TRY/BLOCK, u/v unlock TRY/BLOCK, c fclose, o fopen,
-//                                    r collect a sleeping BLOCK call (or confirm it still sleeps), s signal
+//                                    r collect a sleeping BLOCK call (or confirm it still sleeps), s signal,
+//                                    w fputs a few bytes into the FILE's buffer (no flush; the file size limit is 0
+//                                      during these runs, so any flush of them fails)
 #ifndef _GNU_SOURCE
 #  define _GNU_SOURCE
 #endif
@@ -25,6 +28,8 @@
 #include <stdatomic.h>
 #include <sys/file.h>
 #include <sys/mman.h>
+#include <sys/resource.h>
+#include <sys/stat.h>
 #include <sys/syscall.h>
 #include <sys/wait.h>
 #include <time.h>
@@ -80,6 +85,36 @@ int __wrap_fcntl64(int fd, int cmd, ...)
   }
   return __real_fcntl64(fd, cmd, arg);
 }
+
+static void note_call(int code)
+{
+  if (in_zix_call) {
+    ++unexpected;
+    unexpected_cmd = code;
+  }
+}
+
+int     __real_fflush(FILE*);
+int     __real_fsync(int);
+int     __real_fdatasync(int);
+int     __real_ftruncate(int, off_t);
+int     __real_ftruncate64(int, off_t);
+ssize_t __real_write(int, const void*, size_t);
+int     __real_close(int);
+int     __real_fclose(FILE*);
+int     __real_lockf(int, int, off_t);
+int     __real_lockf64(int, int, off_t);
+
+int     __wrap_fflush(FILE* f) { note_call(1001); return __real_fflush(f); }
+int     __wrap_fsync(int fd) { note_call(1002); return __real_fsync(fd); }
+int     __wrap_fdatasync(int fd) { note_call(1003); return __real_fdatasync(fd); }
+int     __wrap_ftruncate(int fd, off_t n) { note_call(1004); return __real_ftruncate(fd, n); }
+int     __wrap_ftruncate64(int fd, off_t n) { note_call(1004); return __real_ftruncate64(fd, n); }
+ssize_t __wrap_write(int fd, const void* b, size_t n) { note_call(1005); return __real_write(fd, b, n); }
+int     __wrap_close(int fd) { note_call(1006); return __real_close(fd); }
+int     __wrap_fclose(FILE* f) { note_call(1007); return __real_fclose(f); }
+int     __wrap_lockf(int fd, int c, off_t n) { note_call(1008); return __real_lockf(fd, c, n); }
+int     __wrap_lockf64(int fd, int c, off_t n) { note_call(1008); return __real_lockf64(fd, c, n); }
 
 static const char* open_mode(char m)
 {
@@ -148,7 +183,7 @@ static void case_scripted(char** tok)
   print_flags(seen_flags);
   fputs(")", stdout);
   if (unexpected) {
-    printf(" unexpected=%d fcntl(%d)", unexpected, unexpected_cmd);
+    printf(" unexpected=%d call(%d)", unexpected, unexpected_cmd);
   }
   fputc('\n', stdout);
   fclose(f);
@@ -256,6 +291,11 @@ static void worker_loop(Worker* w)
       if (f) {
         fclose(f);
         f = NULL;
+      }
+      break;
+    case 'w':
+      if (f) {
+        fputs("zix", f); // stays in the stdio buffer
       }
       break;
     case 'o':
@@ -387,6 +427,15 @@ static void case_lockstep(char** tok)
   char        flags[1024];
   int         slow = 0, hung = 0, unexp = 0;
   alarm(60); // nothing in a case may take this long: the driver dies and the case is reported as a crash
+  // no file may grow during the run: whatever a worker has buffered in its FILE cannot be flushed
+  struct rlimit old_lim;
+  struct stat   out_st;
+  int           limited = 0;
+  if (!getrlimit(RLIMIT_FSIZE, &old_lim) && !(fstat(1, &out_st) == 0 && S_ISREG(out_st.st_mode))) {
+    struct rlimit zero = old_lim;
+    zero.rlim_cur      = 0;
+    limited            = !setrlimit(RLIMIT_FSIZE, &zero);
+  }
   flags[0] = 0;
   memset(shared, 0, sizeof(*shared));
   fflush(stdout);
@@ -534,6 +583,9 @@ static void case_lockstep(char** tok)
     close(w[i].reply[1]);
   }
   free(sched);
+  if (limited) {
+    setrlimit(RLIMIT_FSIZE, &old_lim);
+  }
   alarm(0);
 }
 
@@ -569,6 +621,7 @@ int main(void)
   sigemptyset(&sa.sa_mask);
   sigaction(SIGUSR1, &sa, NULL);
   signal(SIGPIPE, SIG_IGN);
+  signal(SIGXFSZ, SIG_IGN); // a write over the file size limit fails with EFBIG instead of killing us
   while (vgetline(&line, &cap)) {
     const int n = vsplit(line, tok, 8);
     if (n == 6 && !strcmp(tok[0], "F")) {
